@@ -152,6 +152,43 @@ func ardop.(*TNC).Listen$1() ()
   props C14
   nosafety
   at send#2 requires connected-before-handover: tnc.connected && tnc.data != nil
+  # closing the listener switches listening off and reports it; a closed TNC is reported as such;
+  # a CONNECTED report is an inbound connection only after a TARGET report named the called station
+  call ardop.(*TNC).SetListenEnabled requires listening-switched-off-on-close: $1 == false
+  at send#0 requires close-is-reported: $1 != nil
+  at send#1 requires tnc-closed-is-reported: !ok && $1 == ErrTNCClosed
+  at send#2 requires inbound-only-after-a-target-report: len(targetcall) > 0 && $0 == incoming
+
+# the listener's exit: the connection queue is closed first, then the error queue, and the TNC is
+# free for a new listener
+func ardop.(*TNC).Listen$1$1() ()
+  props C14
+  nosafety
+  at close#0 requires connection-queue-first: $0 == incoming
+  at store requires free-for-a-new-listener: $0 == false
+
+# Listen: refused on a closed TNC or while another listener is active; the TNC is told to listen
+# before the listener is handed out
+ghost var gListenOnErr error
+ghost var gListenOn bool
+func ardop.(*TNC).Listen(tnc) (ln, err)
+  props C14
+  nosafety
+  at return#0 requires closed-tnc-refused: tnc.closed && $r1 == ErrTNCClosed
+  at return#1 requires second-listener-refused: tnc.listenerActive && $r1 == ErrActiveListenerExists
+  call ardop.(*TNC).SetListenEnabled requires listening-switched-on: $1 == true
+  call ardop.(*TNC).SetListenEnabled set gListenOnErr := $r0
+  call ardop.(*TNC).SetListenEnabled set gListenOn := true
+  at go requires listener-runs-only-after-listening-was-switched-on: gListenOn && gListenOnErr == nil && tnc.listenerActive
+  at return#3 requires enable-failure-reported: gListenOnErr != nil && $r1 != nil
+  at return#4 requires listener-handed-out-after-the-switch: gListenOn && gListenOnErr == nil && $r1 == nil
+
+func ardop.(listener).Accept(l) (c, err)
+  props C14
+  at select requires waits-for-connections-or-errors: $c0 == l.incoming && $c1 == l.errors
+  at return#0 requires closed-queue-is-eof: !ok && $r1 == io.EOF
+  at return#1 requires the-queued-connection: ok && $r1 == nil
+
 
 ghost var gFrameNo int
 ghost var gIsARQ bool
